@@ -16,6 +16,8 @@
                      tested with `is not None` everywhere (0 is a legal target).
  Rm memo          : every memoisation construct in the functions behind this property is keyed by everything it reads.
  Rp presence      : optional numeric fields are tested with `is None` / membership, never by truthiness (0 is a value).
+ R7 channel order : SpectralInformation re-orders every per-channel array (incl. delta_pdb_per_channel) with one argsort.
+ Rk field/key     : the parameter classes store every configuration entry under its own name (frozen rename table).
 """
 import ast
 
@@ -345,6 +347,23 @@ def r6_stateless(ctx):
 
 
 
+def r7_channel_order(ctx):
+    """R7: the per-channel offsets (delta_pdb_per_channel) a ROADM equalises with are stored in the same channel order as
+    the frequencies and powers they belong to: SpectralInformation re-orders EVERY per-channel array with the one
+    argsort of the frequencies (shared with C01-R2)"""
+    from .c01 import init_permutation
+    init_permutation(ctx, 'R7.channel-order')
+
+
+def rk_field_key(ctx):
+    """Rk: the parameter classes behind this property store every configuration entry under its own name (self.X = params['X']);
+    the deliberate renames are a frozen table (gscan/fieldkey.py)"""
+    from ..fieldkey import field_key_rule
+    repo = ctx.repo
+    n = field_key_rule(ctx, 'Rk.field-key', [repo.cls('RoadmParams', 'gnpy.core.parameters')], 'a ROADM target or restriction would be taken from another entry')
+    ctx.need('Rk.field-key', 5)
+
+
 from ..memo import rule_for as _memo_rule
 
 RULES_MEMO = ('Rm.memo', _memo_rule('C06', 'the equalisation computed for another spectrum or target would be applied'))
@@ -354,4 +373,4 @@ from ..presence import rule_for as _presence_rule
 
 RULES_PRESENCE = ('Rp.presence', _presence_rule('C06', 'a ROADM target of exactly 0 dBm would be ignored and another target applied'))
 
-RULES = [('R6.stateless', r6_stateless), ('R1.formula', r1_formula), ('R2.policy', r2_policy), ('R4.one-policy', r4_one_policy), ('R5.design', r5_design), RULES_MEMO, RULES_PRESENCE]
+RULES = [('R6.stateless', r6_stateless), ('R1.formula', r1_formula), ('R2.policy', r2_policy), ('R4.one-policy', r4_one_policy), ('R5.design', r5_design), RULES_MEMO, RULES_PRESENCE, ('R7.channel-order', r7_channel_order), ('Rk.field-key', rk_field_key)]
